@@ -280,9 +280,19 @@ impl TopologicalSortMachine
                                         frame.targets[*sub_index].clone()));
                                 }
 
+                                /*  The source's frame may be sitting in the stack unvisited, put there by
+                                    another rule that also depends on it.  That is not a cycle: visit it as
+                                    a source of this frame instead, so it still comes out before this one. */
+                                if let Some(position) = stack.iter().position(
+                                    |f| f.index == *buffer_index && !f.visited)
+                                {
+                                    let pending_frame = stack.remove(position);
+                                    indices_in_stack.remove(buffer_index);
+                                    reverser.push(pending_frame);
+                                }
                                 /*  Look for a cycle by checking the stack for another instance of the node we're
                                     currently on */
-                                if indices_in_stack.contains(buffer_index)
+                                else if indices_in_stack.contains(buffer_index)
                                 {
                                     let mut target_cycle = vec![];
                                     for f in stack.iter()
